@@ -392,6 +392,11 @@ def c14_history(res, rng, kind):
     for k, (op, teams, kw) in enumerate(calls):
         inp = dict(type="c14", kind=kind, cfg=cfg, calls=core.jsonable(calls[:k + 1]))
         before = p_state(shared)
+        if k % 2 == 1:
+            # an unrelated, differently configured model of the same class is constructed (and used) in between
+            other = MODEL_CLS[kind](beta=cfg["beta"] * 3.7, kappa=cfg["kappa"] * 10, tau=cfg["tau"] * 0.5 + 0.01, mu=1.0, sigma=2.0)
+            other.predict_draw([[other.rating()], [other.rating()]])
+            res.count("unrelated_models_constructed")
         try:
             got = do_call(shared, op, teams, kw, lambda: "n%d" % next(ctr), share_ids=(k % 3 == 1))
         except Exception as e:  # noqa: BLE001
@@ -405,7 +410,7 @@ def c14_history(res, rng, kind):
         fresh = MODEL_CLS[kind](**cfg)
         want = do_call(fresh, op, teams, kw, lambda: None)
         if got != want:
-            res.fail("property", "C14: call %d (%s %s) on a shared model after %d earlier calls returns %r, on a fresh model %r" % (
+            res.fail("property", "C14: call %d (%s %s) on a shared model after %d earlier calls (and other models constructed in between) returns %r, on a fresh model %r" % (
                 k, op, kw, k, first_mismatch(got, want), None), inp); return
 
 
